@@ -122,6 +122,7 @@ def check_accessors(ro, add, order=None):
     ok_s, ro_start = get('ro.start_time', lambda: ro.start_time)
     if ok_s and ro_start != exp_ro_start:
         add('C16.timing', 'ro.start_time %r, XML says %r' % (ro_start, exp_ro_start))
+        add('C15.accessor', 'ro.start_time %r does not agree with roEdStart %r' % (ro_start, ro_start_txt))
     ok_d, ro_dur = get('ro.duration', lambda: ro.duration)
     ok_e, ro_end = get('ro.end_time', lambda: ro.end_time)
     ok_sc, ro_script = get('ro.script', lambda: ro.script)
@@ -181,12 +182,16 @@ def check_accessors(ro, add, order=None):
             have_start = exp_explicit(es, 'StoryStarted') is not None or (all_dur and unique)
             if o1 and have_start and start != e_start:
                 add('C16.timing', '%s.start_time %r, expected %r' % (lab, start, e_start))
+            if o1 and exp_explicit(es, 'StoryStarted') is not None and start != exp_explicit(es, 'StoryStarted'):
+                add('C15.accessor', '%s.start_time %r does not agree with the StoryStarted in the XML' % (lab, start))
             e_end = exp_explicit(es, 'StoryEnded')
             if e_end is None and e_start is not None and durs[i] is not None:
                 e_end = e_start + timedelta(seconds=durs[i])
             o2, end = get(lab + '.end_time', lambda: st.end_time)
             if o2 and (exp_explicit(es, 'StoryEnded') is not None or have_start) and end != e_end:
                 add('C16.timing', '%s.end_time %r, expected %r' % (lab, end, e_end))
+            if o2 and exp_explicit(es, 'StoryEnded') is not None and end != exp_explicit(es, 'StoryEnded'):
+                add('C15.accessor', '%s.end_time %r does not agree with the StoryEnded in the XML' % (lab, end))
             if i == len(exp_stories) - 1 and (exp_explicit(es, 'StoryEnded') is not None or have_start):
                 last_end = ('v', e_end)
             if durs[i] is not None:
